@@ -559,3 +559,51 @@ def gen_shape(idx, n=4):
     if any(len(tg) > 1 for _, tg in trans) or len(roots) > 1:
         m.tags.add("fork")
     return m, {}
+
+
+def cshape_family(n=4):
+    """decision shapes: every acyclic edge set over n tasks with at least one join x a condition (succeeded / failed)
+    per edge x an outcome (succeeds / fails) per task.  Tasks whose outcome cannot matter (no outgoing edge) only
+    succeed.  The outcome is part of the definition (action name ovf.ok / ovf.fail, see sim.provider.Outcomes)."""
+    key = ("c", n)
+    if key in _SHAPES:
+        return _SHAPES[key]
+    pairs = [(i, j) for i in range(n) for j in range(i + 1, n)]
+    fam = []
+    for mask in range(1, 1 << len(pairs)):
+        edges = [p for b, p in enumerate(pairs) if mask >> b & 1]
+        inb = {j: [i for i, jj in edges if jj == j] for j in range(n)}
+        if not any(len(v) >= 2 for v in inb.values()):
+            continue
+        srcs = sorted(set(i for i, _ in edges))
+        for cmask in range(1 << len(edges)):
+            for omask in range(1 << len(srcs)):
+                fam.append((n, tuple(edges), cmask, tuple(srcs), omask))
+    _SHAPES[key] = fam
+    return fam
+
+
+def gen_cshape(idx, n=4):
+    fam = cshape_family(n)
+    n, edges, cmask, srcs, omask = fam[idx % len(fam)]
+    m = Model()
+    m.input = [("xs", [10, 20, 30]), ("n", 2), ("k", 2)]
+    m.vars = [("x", "init.x")]
+    inb = {j: [i for i, jj in edges if jj == j] for j in range(n)}
+    for i in range(n):
+        t = Task("t%d" % i)
+        if len(inb[i]) >= 2:
+            t.join = "all"
+        fails = i in srcs and (omask >> srcs.index(i) & 1)
+        t.action = "ovf.fail" if fails else "ovf.ok"
+        m.tasks[t.name] = t
+    for k, (s, j) in enumerate(edges):
+        t = m.tasks["t%d" % s]
+        cond = ("failed",) if cmask >> k & 1 else ("succeeded",)
+        t.trans.append(Tr(len(t.trans), cond=cond, lang=("yaql", "jinja")[k % 2],
+                          pubs=[("x", ("cat", "x", "|t%d.%d" % (s, len(t.trans))))], do=["t%d" % j]))
+    m.output = [("x", ("ref", "x"), "yaql")]
+    m.tags |= {"join", "cshape", "publish", "decision"}
+    if len([i for i in range(n) if not inb[i]]) > 1 or any(len([1 for s, _ in edges if s == i]) > 1 for i in range(n)):
+        m.tags.add("fork")
+    return m, {}
